@@ -656,7 +656,22 @@ def violate(ast, rng, ctx):
     """one AST-level change that typically breaks a documented rule (the reading decides)"""
     kind = rng.choice(['rename-index', 'rename-index', 'swap-var', 'dup-factor', 'number-inside', 'drop-index', 'numeral', 'unknown-name',
                        'vector-denominator', 'vector-exponent', 'extra-index', 'unknown-function', 'third-occurrence', 'third-occurrence',
-                       'sum-index-mismatch'])
+                       'sum-index-mismatch', 'frac-index-reuse', 'pow-index-reuse'])
+    if kind in ('frac-index-reuse', 'pow-index-reuse'):
+        cands = []
+        for t in _nodes(ast, ('term',), []):
+            letters = [c for f in t[1] if f[0] == 'var' for c in f[2] if c.isalpha()]
+            for l in sorted(set(letters)):
+                if letters.count(l) == 1: cands.append((t, l))
+        if cands:
+            t, l = rng.choice(cands)
+            v = rng.choice(['a', 'c'])
+            inner = ('term', [('var', v, l), ('var', v, l)])
+            if kind == 'frac-index-reuse':
+                return kind, _replace(ast, t, ('frac', t, inner))
+            f = next(f for f in t[1] if f[0] == 'var' and l in f[2])
+            return kind, _replace(ast, f, ('pow', f, ('paren', ('expr', False, [(False, inner)]))))
+        kind = 'rename-index'
     if kind == 'third-occurrence':
         cands = []
         for t in _nodes(ast, ('term',), []):
